@@ -54,6 +54,20 @@ def run(ctx):
         order(cfg, crate, rep)
         names(cfg, crate, ctx, rep)
         builders(cfg, crate, rep, tables)
+        # "the end-entity certificate carries exactly the given names ... purposes; the CA is a CA with certificate-signing
+        # and CRL-signing usage": what the builders put into the parameters reaches the certificate only through rcgen's
+        # SAN / KeyUsage / ExtendedKeyUsage / BasicConstraints writers, as compiled for the tool
+        import c02
+        n0, f0 = len(rep.obligations), len(rep.floors)
+        c02.check_schema(ctx, cfg, ctx.crate(cfg), rep)
+        keep = [o for o in rep.obligations[n0:] if any(k in o["key"] for k in ("oid:2.5.29.17", "oid:2.5.29.15", "oid:2.5.29.37", "oid:2.5.29.19")) or not o["ok"] and "|tbs" in o["key"]]
+        del rep.obligations[n0:]
+        del rep.floors[f0:]
+        for o in keep:
+            o["key"] = o["key"].replace("C02.schema", "C18.cert", 1)
+            o["rule"] = "C18.cert"
+        rep.obligations.extend(keep)
+        rep.floor("C18.cert", "extension writer nodes (%s)" % cfg, len(keep), 40)
         # the library target exposes the same cert module: bodies must be identical to the binary's copy
         import c16, json
         n = 0
